@@ -56,6 +56,22 @@ type FRef struct {
 	N      int32
 }
 
+// F12: a wide struct (a decoder might index the fields of wide structs differently)
+type F12 struct {
+	A01 int32
+	B02 string
+	C03 bool
+	D04 float64
+	E05 int64
+	F06 int32
+	G07 string
+	H08 int64
+	I09 bool
+	J10 float64
+	K11 string
+	L12 int32
+}
+
 // FEmb: an embedded struct; its promoted field names (a, s) are NOT fields of FEmb on the wire, so a
 // wire field of that name has no Go counterpart and must be skipped
 type FEmb struct {
@@ -382,6 +398,7 @@ func (c05) Run(c Case, env *Env) Result {
 	hows := []string{"stream", "list", "hoist", "hoist-reorder"}
 	tEmpty := reflect.TypeOf(FEmpty{})
 	tEmb := reflect.TypeOf(FEmb{})
+	tWide := reflect.TypeOf(F12{})
 	for j := lo; j < hi; j++ {
 		if c.Kind == "skipref" || c.Kind == "dupdef" {
 			c05special(c, j, env, &res)
@@ -418,7 +435,10 @@ func (c05) Run(c Case, env *Env) Result {
 			sp.long = (j/(41*4))%2 == 1 || sp.p >= 16
 			feats = append(feats, "how="+sp.how)
 		default:
-			switch r.Intn(4) {
+			switch r.Intn(5) {
+			case 4:
+				sp.goType = tWide
+				feats = append(feats, "wide-struct")
 			case 0:
 				sp.goType = t3
 			case 1:
@@ -584,7 +604,7 @@ func (c05) Run(c Case, env *Env) Result {
 			if sharedDec == nil {
 				// one complete type map for the whole batch, so that no Register* call is needed between streams
 				all := map[string]reflect.Type{"test.Inner": reflect.TypeOf(zoo.Inner{}), "[int32": reflect.TypeOf([]int32{}),
-					"test.Target.F5": t5, "test.Target.F3c": t3, "test.Target.FCase": tCase, "test.Target.FEmpty": tEmpty, "test.Target.FEmb": tEmb}
+					"test.Target.F5": t5, "test.Target.F3c": t3, "test.Target.FCase": tCase, "test.Target.FEmpty": tEmpty, "test.Target.FEmb": tEmb, "test.Target.F12": tWide}
 				for i := 0; i <= 1030; i++ {
 					all[fmt.Sprintf("test.Filler%02d", i)] = reflect.TypeOf(Filler{})
 				}
